@@ -118,6 +118,9 @@ def main(tier):
                     if s["k"] == "assign" and s["rv"]["k"] == "aggregate" and s["rv"]["ak"] == "adt" and s["rv"]["of"]["adt"].endswith("ast::Node"):
                         built += 1
         run.ob(built == 0, "no-node-built|%s" % ev, "C20 eval constructs no new tree (it only descends)", where(m, "::ast::eval"), "%d Node aggregates in eval" % built)
+        # determinism premise (C16), cheap local form: plain entry chain, no static in the crate
+        okc, why = m.entry_chain()
+        run.ob(okc, "entry-chain|%s" % ev, "C20 each of the three evaluations is the plain chain strip -> parse -> eval (no cache, no fast path that could make E, C[(E)] and C[@] take different routes)", "%s::%s" % (ev, ev), why)
         # bracket = identity, previous_token never read, arms unguarded
         opn = m.prim().get(m.tokvar("("))
         okp = opn is not None and opn[1][1][0] == "tailcall" and opn[1][1][1][0] == "encl" and M("(lambda ((bind ?x)) (var ?x))", opn[1][1][1][3]) is not None
@@ -139,6 +142,8 @@ def main(tier):
             t = m.tb.fn_term(f)
             guarded = [s for s in subterms(t) if isinstance(s, tuple) and s and s[0] == "match" and unify(("field", ("param", "self"), "current_token"), s[1]) is not None and any(len(a) == 3 for a in s[2:])]
             run.ob(not guarded, "unguarded|%s|%s" % (ev, nm), "C20 the token dispatch has no side conditions", where(m, "::parser::Parser::" + nm), "guarded arm in token match")
+    bad_statics = [s_ for s_ in F.doc["statics"] if s_["mutable"] or not s_["freeze"] or s_["thread_local"]]
+    run.ob(not bad_statics, "no-state", "C20 the library keeps no state between the three calls (C16)", "crate statics", "; ".join(s_["path"] for s_ in bad_statics)[:300])
     report_issues(run, models, tables={"T_prim", "T_lex", "T_eval"})
     run.floor("evaluators analysed", len(models), 5)
     run.floor("child uses inspected", total_uses, 150)
